@@ -40,6 +40,7 @@ inductive Ev where
   | done (j : Job)          -- the coroutine's sleep ended (it then returns or raises)
   | cancelled (j : Job)     -- CancelledError delivered inside the coroutine
   | succ (j : Job) | err (j : Job) | canc (j : Job)     -- result events with `put = j`
+  | late (j : Job)          -- a put that reached the block after `stop()` (behind the sentinel): never served
   | timeout                 -- stop_timeout expired while stop_async was still running (not observable by itself)
   deriving DecidableEq, Repr, Inhabited
 
@@ -64,6 +65,7 @@ structure State where
   sdPending : Option Job := none  -- start mode: stop_data waits in stop_async for all runs
   deadline : Option Nat := none   -- stop time + stop_timeout, until it has fired
   stopAt : Option Nat := none     -- the instant of `stop()`
+  late : List Job := []           -- puts queued behind the sentinel (internal events during the clean-up)
   output : Nat := 0               -- the block's output, counted up/down like the wrapper does
   nacc : Nat := 0                 -- number of accepted puts (incl. stop_data)
   log : List (Nat × Ev) := []     -- newest first
@@ -232,19 +234,28 @@ def doStop (c : Cfg) (s : State) : State :=
       else accept s d
   { s with stopped := true, deadline := some (s.now + c.stopTimeout), stopAt := some s.now }
 
+/-- `_event_put` after `stop()`: `Block.event` still delivers internal events during the clean-up and
+    `_event_put` queues the data -- behind the sentinel, where no control task ever looks: the put is
+    accepted, but it is neither run nor reported (the docs call the effect of events sent to an
+    asynchronous block during the shutdown undefined).  It is numbered from `nacc` upwards. -/
+def acceptLate (s : State) (x : Item) : State :=
+  let j : Job := ⟨s.nacc + s.late.length, x⟩
+  emit { s with late := s.late ++ [j] } (.late j)
+
 inductive Op where
   /-- a put at instant `t`; `pre`: before the block's own timers of that instant;
       `batch`: no loop iteration since the previous put (same instant) -/
   | put (t : Nat) (pre batch : Bool) (x : Item)
-  | stop (t : Nat) (pre : Bool)
+  /-- `stop()`; `batch`: the control task has not run since the previous put (same instant) -/
+  | stop (t : Nat) (pre batch : Bool)
   | finish
   deriving Repr, Inhabited
 
 def step (c : Cfg) (s : State) : Op → State
   | .put t pre batch x =>
     let s := if batch then s else advanceTo c (some (t, !pre)) s
-    if s.stopped then s else accept s x
-  | .stop t pre => doStop c (advanceTo c (some (t, !pre)) s)
+    if s.stopped then acceptLate s x else accept s x
+  | .stop t pre batch => doStop c (if batch then s else advanceTo c (some (t, !pre)) s)
   | .finish => advanceTo c none s
 
 def run (c : Cfg) (ops : List Op) : State := ops.foldl (step c) {}
